@@ -18,6 +18,7 @@ import ast
 from fractions import Fraction
 
 from optilint.core import Incomplete
+from optilint.model import FuncVal
 from optilint.expr import Poly
 from .common import src
 from .C01_symx import (SymX, Budget, Unsupported, Num, Opq, Rec, NTType, FuncRef, Closure, Ext, Cmp, key, normalize_diff,
@@ -1001,6 +1002,61 @@ def d4_nan(ctx, M: DriverModel, module, tag=""):
 
 # ------------------------------------------------------------------ D1: parameters before the solve
 
+def _stores_parameters(ctx):
+    """predicate(scope): a function of another module that is load-step glue -- it (or a function it calls, depth 3) assigns a `.p`
+    attribute or calls a method that does.  Such helpers are executed in line by the path executor, so that the assignment of the
+    objective's parameters is seen wherever the maintainers moved it."""
+    repo = ctx.repo
+    setters = set()
+    for s_ in repo.functions():
+        if s_.cls is not None and s_.name != "__init__":
+            if any(isinstance(n, ast.Attribute) and isinstance(n.ctx, ast.Store) and n.attr == "p" for n in ast.walk(s_.node)):
+                setters.add(s_.name)
+    cache = {}
+
+    def touches(sc, depth, seen):
+        if id(sc) in seen or depth > 3:
+            return False
+        seen.add(id(sc))
+        for n in ast.walk(sc.node):
+            if isinstance(n, ast.Attribute) and isinstance(n.ctx, ast.Store) and n.attr == "p":
+                return True
+            if isinstance(n, ast.Call) and isinstance(n.func, ast.Attribute) and n.func.attr in setters:
+                return True
+        for n in ast.walk(sc.node):
+            if isinstance(n, ast.Call):
+                try:
+                    vals = repo.resolve(n.func, sc)
+                except Exception:
+                    vals = ()
+                for v in vals:
+                    if isinstance(v, FuncVal) and touches(v.scope, depth + 1, seen):
+                        return True
+        return False
+
+    def tiny(sc):
+        """a pure expression helper: a few assignments and a return, no calls of repository functions"""
+        body = [st for st in sc.node.body if not (isinstance(st, ast.Expr) and isinstance(st.value, ast.Constant))]
+        if not body or len(body) > 4 or not all(isinstance(st, (ast.Assign, ast.Return)) for st in body) or not isinstance(body[-1], ast.Return):
+            return False
+        for n in ast.walk(sc.node):
+            if isinstance(n, ast.Call):
+                try:
+                    vals = repo.resolve(n.func, sc)
+                except Exception:
+                    return False
+                if any(isinstance(v, FuncVal) for v in vals):
+                    return False
+        return True
+
+    def pred(sc):
+        k = id(sc)
+        if k not in cache:
+            cache[k] = sc.kind == "function" and sc.cls is None and not sc.module.is_test and (touches(sc, 0, set()) or tiny(sc))
+        return cache[k]
+    return pred
+
+
 def d1_params(ctx, module, func, driver_func):
     rule = "D1/T2-parameters-before-solve"
     sc = ctx.need(f"{module}:{func}")
@@ -1014,7 +1070,7 @@ def d1_params(ctx, module, func, driver_func):
         d = sc.default_of(p_)
         if d is not None and any(getattr(v, "scope", None) is drv for v in ctx.repo.resolve(d, sc.parent)):
             solver_ps.append(p_)
-    X = SymX(ctx.repo, sc, max_steps=80000)
+    X = SymX(ctx.repo, sc, max_steps=80000, inline_other=_stores_parameters(ctx))
     try:
         recs = X.analyse()
     except Budget as e:
@@ -1031,8 +1087,51 @@ def d1_params(ctx, module, func, driver_func):
         return key(ev.fn) in solver_ps or key(ev.fn) == "solver_algorithm"
 
     def is_warm(ev):
-        return ev.fn != "store" and isinstance(ev.fn, FuncRef) and ev.fn.scope.name.startswith("warm_start_increment")
+        # the predictor: a function of the warm-start module that was not inlined (i.e. not a piece of load-step glue that assigns the
+        # parameters), whatever it is called
+        return ev.fn != "store" and isinstance(ev.fn, FuncRef) and (ev.fn.scope.name.startswith("warm_start_increment") or
+                                                                    ev.fn.scope.module.name == "optimism.WarmStart")
     cell = (obj_p, "p")
+    # methods of repository classes whose body is `self.p = <parameter>`: a call `objective.m(v)` assigns the parameters like `objective.p = v`
+    setter_arg = {}
+    for s_ in ctx.repo.functions():
+        if s_.cls is None or s_.name == "__init__" or len(s_.params()) < 2:
+            continue
+        for n in ast.walk(s_.node):
+            if isinstance(n, ast.Assign) and len(n.targets) == 1 and isinstance(n.targets[0], ast.Attribute) and n.targets[0].attr == "p" \
+                    and isinstance(n.targets[0].value, ast.Name) and n.targets[0].value.id == s_.params()[0] and isinstance(n.value, ast.Name) \
+                    and n.value.id in s_.params()[1:]:
+                setter_arg.setdefault(s_.name, set()).add((s_.params().index(n.value.id) - 1, n.value.id))
+
+    def setter_value(ev):
+        """the value a call `objective.<setter>(...)` stores in objective.p, else None"""
+        f = ev.fn
+        if ev.fn == "store" or not (isinstance(f, Opq) and f.kind == "attr" and len(f.parts) == 2 and key(f.parts[0]) == obj_p and f.parts[1] in setter_arg):
+            return None
+        vals = set()
+        for pos, pname in setter_arg[f.parts[1]]:
+            kw = dict(ev.kwargs)
+            v = kw.get(pname, ev.args[pos] if pos < len(ev.args) else None)
+            vals.add(key(v) if v is not None else None)
+        if len(vals) == 1 and None not in vals:
+            (pos, pname), = list(setter_arg[f.parts[1]])[:1]
+            return dict(ev.kwargs).get(pname, ev.args[pos] if pos < len(ev.args) else None)
+        return None
+
+    def cell_at(evs, e):
+        """objective.p when the event e happens: the last direct store or setter call before it"""
+        last = None
+        for e2 in evs:
+            if e2.seq >= e.seq:
+                break
+            sv = setter_value(e2)
+            if sv is not None:
+                last = (e2.seq, sv)
+            elif e2.fn == "store" and len(e2.args) == 3 and key(e2.args[0]) == obj_p and e2.args[1] == "p":
+                last = (e2.seq, e2.args[2])
+        if last is not None:
+            return last[1]
+        return e.heap.get(cell)
     v1, w1 = True, []
     v2, w2 = True, []
     v3, w3 = True, []
@@ -1048,7 +1147,7 @@ def d1_params(ctx, module, func, driver_func):
         for e in solves:
             n_solve += 1
             solve_node = solve_node or e.node
-            hv = e.heap.get(cell)
+            hv = cell_at(evs, e)
             if hv is None:
                 v1 = False
                 w1.append(f"the path [{path_text(r.st.decisions)}] reaches the nonlinear solve without `{obj_p}.p = p`: the solve (and its success flag) "
@@ -1062,7 +1161,7 @@ def d1_params(ctx, module, func, driver_func):
         for e in [e for e in evs if is_warm(e)]:
             n_warm += 1
             warm_node = warm_node or e.node
-            if cell in e.heap:
+            if cell_at(evs, e) is not None:
                 v2 = False
                 w2.append(f"`{obj_p}.p` is assigned before the warm start (path [{path_text(r.st.decisions)}]), so the predictor sees p_new - p_new = 0")
             cps = e.fn.scope.params()
